@@ -2,7 +2,7 @@
 //! Pattern p --(reference bit writer)--> buffer --dfs::X::decode--> value
 //!           --dfs::X::encode--> buffer --(reference bit reader)--> p'
 
-use crate::fields::{Dec, FieldDef, FIELDS, N_FIELDS_SCANNED};
+use crate::fields::{Dec, FErr, FieldDef, FIELDS, N_FIELDS_SCANNED};
 use crate::mon::{guard, Ctx};
 use crate::oracle::bits;
 use crate::oracle::crc;
@@ -219,11 +219,198 @@ fn check_bias_pattern(ctx: &mut Ctx, number: u16, p: u64, variant: usize) {
     }
 }
 
+/// Several fields written through ONE assembler and read through ONE parser, as in a message body: a field's
+/// encoding and decoding may depend on nothing but its own value.  Fields are drawn in related groups (same width
+/// and carrier type, different resolution) and neighbouring fields are given equal real values where their grids
+/// allow it -- the situations in which state carried from one field to the next would show.
+/// seq: (field index, bit pattern)
+fn check_field_sequence(ctx: &mut Ctx, seq: &[(usize, u64)], start: usize) {
+    use rtcm_rs::verif_hooks::assembler::Assembler;
+    use rtcm_rs::verif_hooks::parser::Parser;
+    ctx.eval();
+    let rp = || json!({"kind":"field_sequence","start":start,"fields":seq.iter().map(|(fi, p)| json!([FIELDS[*fi].id, p.to_string()])).collect::<Vec<_>>()});
+    // standalone: what each field does on its own
+    let mut alone: Vec<(Dec, u64)> = Vec::with_capacity(seq.len());
+    for &(fi, p) in seq {
+        let f = &FIELDS[fi];
+        let mut b = [0u8; 16];
+        bits::write16(&mut b, 5, f.len, p);
+        let r = guard(|| {
+            let (d, _) = (f.dec)(&b, 5).ok()?;
+            let mut o = [0u8; 16];
+            (f.enc)(&d, &mut o, 9).ok()?;
+            Some((d, bits::read16(&o, 9, f.len)))
+        });
+        match r {
+            Ok(Some(x)) => alone.push(x),
+            _ => {
+                // refused or panicking on its own: the single-field checks report that
+                ctx.count("field_sequences_skipped_standalone_error");
+                return;
+            }
+        }
+    }
+    let total: usize = seq.iter().map(|(fi, _)| FIELDS[*fi].len).sum();
+    let mut buf = vec![0u8; (start + total + 7) / 8 + 1];
+    let r = guard(|| {
+        let mut asm = Assembler::new(&mut buf[..], start);
+        for (i, &(fi, _)) in seq.iter().enumerate() {
+            if let Err(e) = (FIELDS[fi].enc_on)(&alone[i].0, &mut asm) {
+                return Err(format!("field #{} ({}) refused inside the sequence: {:?}", i, FIELDS[fi].id, e));
+            }
+        }
+        Ok(asm.offset())
+    });
+    match r {
+        Err(p) => {
+            ctx.panic_violation("C08.no_panic", &p, "encoding a sequence of fields through one assembler", rp());
+            return;
+        }
+        Ok(Err(why)) => {
+            ctx.violation("C08.independent_of_neighbours|encode_status".into(), "C08.independent_of_neighbours", why, rp());
+            return;
+        }
+        Ok(Ok(end)) => {
+            if end != start + total {
+                ctx.violation("C08.independent_of_neighbours|cursor".into(), "C08.independent_of_neighbours", format!("{} fields of {} bits in total moved the cursor from {} to {}", seq.len(), total, start, end), rp());
+                return;
+            }
+        }
+    }
+    let mut pos = start;
+    for (i, &(fi, _)) in seq.iter().enumerate() {
+        let f = &FIELDS[fi];
+        let got = bits::read(&buf, pos, f.len) as u64;
+        if got != alone[i].1 {
+            ctx.violation(
+                format!("C08.independent_of_neighbours|{}", f.id),
+                "C08.independent_of_neighbours",
+                format!("field #{} ({}, value {:?}) is written as {:#x} after {} other field(s) on the same assembler but as {:#x} on its own; previous field: {}", i, f.id, alone[i].0, got, i, alone[i].1, if i > 0 { FIELDS[seq[i - 1].0].id } else { "-" }),
+                rp(),
+            );
+            return;
+        }
+        pos += f.len;
+    }
+    // read back through one parser
+    let r = guard(|| {
+        let mut par = Parser::new(&buf[..], start);
+        let mut out: Vec<Result<Dec, FErr>> = Vec::new();
+        for &(fi, _) in seq {
+            out.push((FIELDS[fi].dec_on)(&mut par));
+        }
+        (out, par.offset())
+    });
+    match r {
+        Err(p) => ctx.panic_violation("C08.no_panic", &p, "decoding a sequence of fields through one parser", rp()),
+        Ok((out, end)) => {
+            for (i, d) in out.iter().enumerate() {
+                // the canonical pattern decodes on its own to ...
+                let f = &FIELDS[seq[i].0];
+                let mut b = [0u8; 16];
+                bits::write16(&mut b, 3, f.len, alone[i].1);
+                let want = (f.dec)(&b, 3).map(|x| x.0);
+                if d.as_ref().ok() != want.as_ref().ok() {
+                    ctx.violation(
+                        format!("C08.independent_of_neighbours|{}|decode", f.id),
+                        "C08.independent_of_neighbours",
+                        format!("field #{} ({}) pattern {:#x} decodes to {:?} after {} other field(s) on the same parser but to {:?} on its own", i, f.id, alone[i].1, d, i, want),
+                        rp(),
+                    );
+                    return;
+                }
+            }
+            if end != start + total {
+                ctx.violation("C08.independent_of_neighbours|cursor".into(), "C08.independent_of_neighbours", format!("parser cursor {} after {} bits from {}", end, total, start), rp());
+            }
+        }
+    }
+    ctx.count("field_sequences");
+    ctx.count_n("fields_in_sequences", seq.len() as u64);
+}
+
+/// pattern of field g whose decoded real value equals `v`, if g's grid has it
+fn pattern_for_value(g: &FieldDef, v: f64) -> Option<u64> {
+    let res = g.res?;
+    let k = ((v - g.bias.unwrap_or(0.0)) / res).round();
+    if !k.is_finite() || k.abs() > 9.0e18 {
+        return None;
+    }
+    let k = k as i128;
+    let (lo, hi) = g.k_range();
+    if k < lo || k > hi || Some(k) == g.inv {
+        return None;
+    }
+    let p = g.int_pattern(k);
+    let mut b = [0u8; 16];
+    bits::write16(&mut b, 3, g.len, p);
+    match (g.dec)(&b, 3) {
+        Ok((Dec::F64(x), _)) if x == v => Some(p),
+        Ok((Dec::F32(x), _)) if x as f64 == v => Some(p),
+        _ => None,
+    }
+}
+
+fn random_field_sequence(ctx: &mut Ctx, rng: &mut Rng) {
+    let n = rng.range(2, 6) as usize;
+    let mut seq: Vec<(usize, u64)> = Vec::with_capacity(n);
+    let mut equal_values = 0u64;
+    for i in 0..n {
+        let fi = if i > 0 && rng.chance(2, 3) {
+            // a relative of the previous field: same width and value type
+            let prev = &FIELDS[seq[i - 1].0];
+            let rel: Vec<usize> = (0..FIELDS.len()).filter(|&j| FIELDS[j].len == prev.len && FIELDS[j].dt == prev.dt && FIELDS[j].cap.is_none()).collect();
+            *rng.pick(&rel)
+        } else {
+            let mut j = rng.usize_below(FIELDS.len());
+            while FIELDS[j].cap.is_some() {
+                j = rng.usize_below(FIELDS.len());
+            }
+            j
+        };
+        let f = &FIELDS[fi];
+        let m: u64 = if f.len == 64 { u64::MAX } else { (1u64 << f.len) - 1 };
+        let mut p = match rng.below(6) {
+            0 => 0,
+            1 => m,
+            2 => 1u64 << rng.below(f.len as u64),
+            _ => rng.u64() & m,
+        };
+        if i > 0 && f.is_float() && rng.chance(2, 3) {
+            // the same real value as the previous field, where this grid has it
+            let (pf, pp) = (&FIELDS[seq[i - 1].0], seq[i - 1].1);
+            let mut b = [0u8; 16];
+            bits::write16(&mut b, 3, pf.len, pp);
+            let v = match (pf.dec)(&b, 3) {
+                Ok((Dec::F64(x), _)) => Some(x),
+                Ok((Dec::F32(x), _)) => Some(x as f64),
+                _ => None,
+            };
+            if let Some(q) = v.and_then(|v| pattern_for_value(f, v)) {
+                p = q;
+                equal_values += 1;
+            } else if let Some(v) = v {
+                // make the previous field small enough that both grids hold the value
+                let _ = v;
+            }
+        }
+        seq.push((fi, p));
+    }
+    let mut h = 0u64;
+    for s in &seq {
+        h = mix(h, (s.0 as u64) << 48 ^ s.1);
+    }
+    ctx.nontrivial(h);
+    ctx.count_n("neighbouring_fields_given_equal_real_values", equal_values);
+    check_field_sequence(ctx, &seq, rng.usize_below(9));
+}
+
 #[derive(Clone, Copy)]
 enum Job {
     Exhaustive { field: usize, lo: u64, hi: u64 },
     Sampled { field: usize, n: u64, part: u64 },
     Bias { number: u16 },
+    Sequences { n: u64, part: u64 },
 }
 
 pub fn run(p: &Params) -> Outcome {
@@ -260,8 +447,18 @@ pub fn run(p: &Params) -> Outcome {
     for n in [1059u16, 1065, 1230] {
         jobs.push(Job::Bias { number: n });
     }
+    let n_seq = p.size(1_500_000, 60_000_000);
+    for part in 0..64u64 {
+        jobs.push(Job::Sequences { n: n_seq / 64, part });
+    }
     let njobs = jobs.len();
     let mut total = par::run_queue(p.workers, njobs, move |ji, ctx| match jobs[ji] {
+        Job::Sequences { n, part } => {
+            let mut rng = Rng::derive(seed, "C08.seq", part);
+            for _ in 0..n {
+                random_field_sequence(ctx, &mut rng);
+            }
+        }
         Job::Exhaustive { field, lo, hi } => {
             let f = &FIELDS[field];
             let mut absent = 0u64;
@@ -373,7 +570,7 @@ pub fn run(p: &Params) -> Outcome {
     let all_exh = FIELDS.iter().all(|f| f.len <= exhaustive_max);
     Outcome {
         ctx: total,
-        rule: format!("{} df! fields scanned from the tree; every pattern for w <= {}, boundaries + one-hot neighbourhoods + {} stratified samples for wider fields; 1059/1065/1230 bias codecs through one-entry frames; oracle: pattern == encode(decode(pattern)) (sign-magnitude negative zero -> zero), widths, exactly one absent pattern, finiteness; enumerated patterns are distinct by construction (counted exactly)", N_FIELDS_SCANNED, exhaustive_max, n_samples),
+        rule: format!("{} df! fields scanned from the tree; every pattern for w <= {}, boundaries + one-hot neighbourhoods + {} stratified samples for wider fields; 1059/1065/1230 bias codecs through one-entry frames; sequences of 2..6 fields through one assembler and one parser (related fields, neighbouring fields given equal real values where both grids hold them) compared with each field on its own; oracle: pattern == encode(decode(pattern)) (sign-magnitude negative zero -> zero), widths, exactly one absent pattern, finiteness; enumerated patterns are distinct by construction (counted exactly)", N_FIELDS_SCANNED, exhaustive_max, n_samples),
         exhaustive: all_exh,
         extra: json!({"fields_scanned": N_FIELDS_SCANNED, "fields_exhaustive": n_exh, "optional_fields_exhaustive": n_opt, "hook": "rtcm_rs::verif_hooks::dfs"}),
     }
@@ -391,6 +588,11 @@ pub fn replay(_p: &Params, v: &Value) -> Outcome {
             } else {
                 ctx.inconclusive("field not found".into());
             }
+        }
+        "field_sequence" => {
+            let start = v["start"].as_u64().unwrap_or(0) as usize;
+            let seq: Vec<(usize, u64)> = v["fields"].as_array().map(|a| a.iter().filter_map(|x| Some((FIELDS.iter().position(|f| Some(f.id) == x[0].as_str())?, x[1].as_str()?.parse().ok()?))).collect()).unwrap_or_default();
+            check_field_sequence(&mut ctx, &seq, start);
         }
         "field_absent" => {
             if let Some(f) = crate::fields::by_id(v["field"].as_str().unwrap_or("")) {
